@@ -133,6 +133,18 @@ def run_history(env, kind, events, scratch, viol, stats, rnd):
         ref = env.reference(q, e.get("input"), e.get("extra"))
         h0 = cache.hits if cache is not None else 0
         got, st, log = env.evaluate(q, e.get("input"), e.get("extra"), cache=cache)
+        if e.get("input") is None and e.get("extra") is None and ref is not None and ref.get("ok"):
+            # the isolated reference is the evaluator itself without a cache; the model of isolation is the plain
+            # left-to-right composition (every link argument a value of its own, variables threaded to the right)
+            out = env.interp(q)
+            if out is not None and out.ok:
+                stats["composition_checks"] = stats.get("composition_checks", 0) + 1
+                if not R.equal(out.value, ref["value"]):
+                    viol("isolated_evaluation_differs_from_composition.value", "%s: evaluate(%r) without cache gives %s, composition of the functions %s" % (
+                        kind, q, R.short(ref["value"]), R.short(out.value)), step)
+                elif not R.dict_equal_unordered(out.vars, ref["vars"]):
+                    viol("isolated_evaluation_differs_from_composition.state_variables", "%s: evaluate(%r) without cache ends with variables %r, composition %r" % (
+                        kind, q, ref["vars"], out.vars), step)
         if getattr(env, "input_mutated", None):
             viol("injected_input_value_mutated", "%s: step %d evaluate(%r, input_value=%s): the caller's object became %s" % (
                 kind, step, q, env.input_mutated[0], env.input_mutated[1]), step)
@@ -217,6 +229,7 @@ def run_shard(spec):
     from lqv.gen.query import QGen
 
     env = E.Env(default_vars=defaults_for(spec["replay"]["kind"] if "replay" in spec else spec["kind"]))
+    env.ref.isolate = True
     scratch = spec["scratch"]
     violations = {}
     samples = []
